@@ -122,7 +122,25 @@ def run_apalache(wd, module, obligations, timeout=900):
             "states": 0, "distinct": 0}
 
 
-def run_mc(wd, module, constants, invariants, workers=4, timeout=1500, props=None, constraint=None, specname="Spec"):
+def expand_schedules(cases):
+    """MC_Life prints each base case once ({"def": id, "case": {...}}) and every schedule as
+    {"use": id, "sched": [...]}: join them into ordinary cases for the `sched` runner."""
+    defs = {c["def"]: c["case"] for c in cases if "def" in c}
+    if not defs:
+        return cases
+    out = []
+    for c in cases:
+        if "use" in c:
+            full = dict(defs[c["use"]])
+            full["sched"] = c["sched"]
+            full["run"] = "sched"
+            out.append(full)
+        elif "def" not in c:
+            out.append(c)
+    return out
+
+
+def run_mc(wd, module, constants, invariants, workers=4, timeout=1500, props=None, constraint=None, specname="Spec", view=None):
     """Stage A: model check spec/<module>.tla with the given constants; returns (cases, stats)."""
     cfg = os.path.join(wd, module + ".cfg")
     with open(cfg, "w") as f:
@@ -139,6 +157,8 @@ def run_mc(wd, module, constants, invariants, workers=4, timeout=1500, props=Non
                 f.write("  %s\n" % i)
         if constraint:
             f.write("CONSTRAINT %s\n" % constraint)
+        if view:
+            f.write("VIEW %s\n" % view)
         f.write("CHECK_DEADLOCK FALSE\n")
     out = os.path.join(wd, module + ".out")
     meta = os.path.join(wd, "meta-" + module)
@@ -166,6 +186,7 @@ def run_mc(wd, module, constants, invariants, workers=4, timeout=1500, props=Non
         tail = subprocess.run(["tail", "-n", "40", out], stdout=subprocess.PIPE).stdout.decode(errors="replace")
         tail = "\n".join(l for l in tail.splitlines() if not l.startswith('"REPLAY'))
         raise ToolError("model %s: TLC did not complete cleanly (%s)\n%s" % (module, "; ".join(errors[:3]), tail))
+    cases = expand_schedules(cases)
     stats["cases"] = len(cases)
     stats["transitions"] = max(stats["states"] - 1, 0)
     return cases, stats
@@ -313,7 +334,7 @@ def check(prop, tier, seed):
             continue
         cs, st = run_mc(wd, m["module"], m["constants"], m["invariants"], workers=m.get("workers", 4),
                         props=m.get("props"), constraint=m.get("constraint"), timeout=m.get("timeout", 1500),
-                        specname=m.get("spec", "Spec"))
+                        specname=m.get("spec", "Spec"), view=m.get("view"))
         need = m.get("min_cases", 1)
         if len(cs) < need and not m.get("no_cases"):
             raise ToolError("model %s emitted %d cases (< %d): vacuous" % (m["module"], len(cs), need))
